@@ -29,7 +29,7 @@ ID = "C19"
 PROP_FILES = ["Props/C19.v"]
 RUN_FILES = ["Run/C19Run.v", "Run/C19SpecRun.v"]
 RULE = ("generated: seeded multi-file programs (1-3 linked files, 0-2 include files, possibly included twice or by two files, "
-        "`.end` early, `.once`, `.link`) with labels (each followed by a unique 3-byte marker), local labels, constants of any value "
+        "`.end` early, `.once`, `.link` at the start of the first file only) with labels (each followed by a unique 3-byte marker), local labels, constants of any value "
         "(boundary-biased: 0, +-1, +-2^n, +-(2^n-1) up to 2^100, equal values under different names, names differing only in case, "
         "names with '.', '$', U+017F/U+212A); synthetic symbol tables given directly to Compiler.generate_listing; "
         "real CLI runs with --lst x 24 output selectors.  A case is non-trivial and distinct if its listing text is new and has >= 2 symbol lines, "
@@ -489,7 +489,7 @@ def cli_observe(j, r):
 
 def cli_jobs(rng, names, tier, tmp):
     sels = sel_list()
-    reps = 1 if tier == "quick" else 6
+    reps = 2 if tier == "quick" else 8
     jobs = []
     for rep_i in range(reps):
         for sname, argv, make, out_rel, to_stdout in sels:
@@ -695,6 +695,10 @@ def explore(rep, br, tier, seed, spec_only=False):
                             inp, impl=content, expected=py_expected(p["truth"]))
     finally:
         shutil.rmtree(tmp, ignore_errors=True)
+    rep.notes.append("domain: `.link` only at the start of the first linked file. An included file that sets its own `.link` is linked elsewhere on purpose "
+                     "(compile_include gives it its own base): its labels are listed with that base and do not point into the image; this is C02/C12's subject.")
+    rep.notes.append("`-o FILE` together with a make_xxx directive: both files are written (the make_xxx one first) and the listing is named after the -o file; "
+                     "the sweep takes the -o file as 'the first output file' in that case.")
     rep.exhaustive_parts.append("all %d output selectors of the CLI sweep (%s)" % (len(sel_list()), ", ".join(s[0] for s in sel_list())))
 
 
